@@ -154,6 +154,18 @@ def run_seeded(c):
         if k == "ErdosRenyi_links":
             A = Network.ErdosRenyi(n_nodes=c["n"], n_links=c["m"], silence_level=3)
             rec["A1"], rec["A0"] = enc.ints(A), []
+        elif k in ("ErdosRenyi_p0", "ErdosRenyi_p1"):
+            A = Network.ErdosRenyi(n_nodes=c["n"], link_probability=float(k[-1]), silence_level=3)
+            rec["A1"], rec["A0"] = enc.ints(A), []
+        elif k == "Model_ErdosRenyi":
+            net = Network.Model("ErdosRenyi", n_nodes=c["n"], n_links=c["m"], silence_level=3)
+            rec["A1"], rec["A0"] = enc.ints(net.adjacency), []
+        elif k == "GeoModel_ErdosRenyi":
+            from pyunicorn.core import GeoGrid, GeoNetwork
+            grid = GeoGrid(np.arange(2.0), np.linspace(-50.0, 50.0, c["n"]), np.linspace(-100.0, 100.0, c["n"]),
+                           silence_level=3)
+            net = GeoNetwork.Model("ErdosRenyi", grid, n_nodes=c["n"], n_links=c["m"], silence_level=3)
+            rec["A1"], rec["A0"] = enc.ints(net.adjacency), []
         elif k == "BarabasiAlbert":
             A = Network.BarabasiAlbert(n_nodes=c["n"], n_links_each=c["m"])
             rec["A1"], rec["A0"] = enc.ints(A.toarray() if hasattr(A, "toarray") else A), []
@@ -250,6 +262,8 @@ def main(ctx):
         n = 6 + (j % 7)
         for gen, m in (("ErdosRenyi_links", (n * (n - 1) // 2) * (1 + j % 3) // 4), ("BarabasiAlbert", 1 + j % 3),
                        ("BarabasiAlbert_igraph", 1 + j % 3), ("WattsStrogatz", 1 + j % 2),
+                       ("ErdosRenyi_p0", 0), ("ErdosRenyi_p1", n * (n - 1) // 2),
+                       ("Model_ErdosRenyi", [0, n * (n - 1) // 2, n][j % 3]), ("GeoModel_ErdosRenyi", n + j % 3),
                        ("randomly_rewire", 5 + j), ("RandomlySetCrossLinks", 1 + j % 4),
                        ("RandomlySetCrossLinks_sparse", 1 + j % 4), ("set_random_links_by_distance", 0)):
             mode = ["count", "density", "null", "count0", "density0"][j % 5] if gen.startswith("RandomlySetCross") else "count"
